@@ -604,7 +604,7 @@ Proof.
     clear - Hok. induction gcs; simpl; constructor; auto.
   - destruct (gc_pass (thr en) (epoch en) i rank (nthN outc) (nthL ords) (shards en) gcs) as [[st' gcs']|] eqn:Hgc;
       try discriminate.
-    inversion H; subst. simpl. destruct (gc_pass_inv _ _ _ _ _ _ _ _ _ _ HI HG Hgc). auto.
+    inversion H; subst. destruct (gc_pass_inv _ _ _ _ _ _ _ _ _ _ HI HG Hgc). unfold Inv8; simpl. auto.
 Qed.
 
 (* running a history *)
